@@ -531,6 +531,7 @@ func parseRib(data []byte, family bgp.Family, isAddPath bool) (*Rib, error) {
 		safi = data[2]
 		data = data[3:]
 		family = bgp.NewFamily(afi, safi)
+		u.Family = family
 	}
 	prefix, err := bgp.NLRIFromSlice(family, data)
 	if err != nil {
@@ -559,12 +560,15 @@ func (u *Rib) Serialize() ([]byte, error) {
 	buf := make([]byte, 4)
 	binary.BigEndian.PutUint32(buf, u.SequenceNumber)
 	switch u.Family {
-	case bgp.RF_FS_IPv4_UC, bgp.RF_IPv4_MC, bgp.RF_IPv6_UC, bgp.RF_IPv6_MC:
+	case bgp.RF_IPv4_UC, bgp.RF_IPv4_MC, bgp.RF_IPv6_UC, bgp.RF_IPv6_MC:
+		// RFC 6396 4.3.2: the AFI/SAFI-specific RIB subtypes carry no
+		// address family fields (parseRib does not expect them either)
+	default:
+		// RFC 6396 4.3.3: RIB_GENERIC
 		var bbuf [2]byte
 		binary.BigEndian.PutUint16(bbuf[:], u.Family.Afi())
 		buf = append(buf, bbuf[:]...)
 		buf = append(buf, u.Family.Safi())
-	default:
 	}
 	bbuf, err := u.Prefix.Serialize()
 	if err != nil {
